@@ -160,6 +160,9 @@ func (pf *progFile) buildMoov() *mp4.MoovBox {
 			total += uint64(d)
 		}
 		trak.Mdia.Mdhd.Duration = total
+		if total > 0xffffffff {
+			trak.Mdia.Mdhd.Version = 1 // 64-bit duration field
+		}
 		trak.Tkhd.Duration = total * 1000 / uint64(t.timescale)
 		if trak.Tkhd.Duration > maxDur {
 			maxDur = trak.Tkhd.Duration
